@@ -265,6 +265,13 @@ def run(ctx):
     # ---------------- R12.6 the help-related settings documented as tree-wide are stored as global settings (shared rule R5.8)
     from rules.c05 import global_setters
     global_setters(fx, res, "R12.6", ["disable_help_flag", "disable_help_subcommand", "disable_version_flag", "hide_possible_values", "next_line_help", "disable_colored_help"])
+    # ---------------- R12.3b `help <sub>` always renders the LONG help of the subcommand it names
+    phs = fx.body("clap_builder::parser::parser::Parser::parse_help_subcommand")
+    hes = phs.calls_to(r"Parser::help_err$")
+    require(fx, res, "R12.3", "help-subcommand-renders-help", phs, r"Parser::help_err$", len(hes), 1, "parse_help_subcommand no longer renders help")
+    for c in hes:
+        res.check(op_int(c.args[1]) == 1 and expr(phs, c.args[0]).startswith("new("), "R12.3", "help-subcommand-long-help", c.where(), "help_err(true) on a parser for the named subcommand",
+                  "`help <sub>` renders with use_long = %s: whether long help is shown depends on something other than the request itself (the level the word `help` was typed at)" % expr(phs, c.args[1])[:60])
     # ---------------- R12.3 help for the current level
     he = fx.body("clap_builder::parser::parser::Parser::help_err")
     okc = all(re.match(r"^self\.cmd", expr(he, c.args[0])) for c in he.calls_to(r"Command::write_help_err$", r"error::Error::display_help$"))
